@@ -413,16 +413,28 @@ func (p *bfdPeer) remoteDown() {
 }
 
 func (p *bfdPeer) resetPeer() {
-	if err := p.peerState.ResetPeer(context.Background(), &api.ResetPeerRequest{
-		Address:       p.peerAddress.String(),
-		Communication: "BFD is down",
-		Soft:          false,
-	}); err != nil {
-		p.logger.Warn("ResetPeer failed",
-			slog.String("Topic", "bfd"),
-			slog.String("Peer", p.peerAddress.String()),
-			slog.String("Err", err.Error()),
-		)
+	// ResetPeer is served by the BGP server's management loop. That loop may at
+	// this moment be deleting neighbors, which waits for the BFD server loop,
+	// which in turn waits for this peer's loop to stop: give up waiting for the
+	// reset as soon as this peer is told to stop.
+	done := make(chan struct{})
+	go func() {
+		defer close(done)
+		if err := p.peerState.ResetPeer(context.Background(), &api.ResetPeerRequest{
+			Address:       p.peerAddress.String(),
+			Communication: "BFD is down",
+			Soft:          false,
+		}); err != nil {
+			p.logger.Warn("ResetPeer failed",
+				slog.String("Topic", "bfd"),
+				slog.String("Peer", p.peerAddress.String()),
+				slog.String("Err", err.Error()),
+			)
+		}
+	}()
+	select {
+	case <-done:
+	case <-p.eventShutdown:
 	}
 }
 
